@@ -84,6 +84,7 @@ def run(ctx, rep):
     # reconstruction must drive the predictor with the same operations at the same points of the correction stream
     m1s(F, rep, "M1s")
     _m2_m3(F, rep)
+    m7(F, rep)
     from . import sib
     sib.m4(F, rep)
     # M6: the block writer that reconstruction ends in (shared with C07/W2): reference tokens keep their distance,
@@ -98,6 +99,44 @@ def run(ctx, rep):
     for o in tmp.obs:
         o.rule = "M6"
         rep.obs.append(o)
+
+
+def m7(F, rep, rule="M7"):
+    """Reconstruction uses the decoded values as they are.  A constant clamp / mask / saturation of a value that came out of
+    decode_value / decode_correction is accepted only when it cannot bite, i.e. the upper bound of the clamped expression
+    (field width of the decoded value, pfa/ub.py) does not exceed the constant; otherwise the analysis side can write a value
+    that reconstruction silently replaces (same number of bits consumed, different bytes written)."""
+    from ..ub import UB, INF
+    U = UB(F)
+    roots = F.roots_for([R_ENTRY])
+    par = F.reach(roots)
+    defs = sorted({F.inst(i)["def"] for i in par if F.inst(i)["local"] and F.inst(i)["def"] in F.bodies and "cabac_codec" not in F.inst(i)["def"]})
+    n_dec = n_cl = 0
+    for dn in defs:
+        b = F.bodies[dn]
+        dec = [t["dest"]["l"] for bb, t in b.calls() if re.search(r"::decode_(value|correction)$", strip_generics(callee_def(t)))]
+        if not dec:
+            continue
+        n_dec += len(dec)
+        tainted = flow.taint(b, set(dec))
+        for bb, t in b.calls():
+            cn = strip_generics(callee_def(t))
+            m = re.search(r"(cmp::min|Ord::min|::clamp|saturating_sub|saturating_add)$", cn)
+            if not m or len(t["args"]) < 2:
+                continue
+            ops = t["args"]
+            ks = [flow.const_eval(b, a) for a in ops]
+            vs = [a for a, k in zip(ops, ks) if k is None and op_place(a) is not None and op_place(a)["l"] in tainted]
+            if not vs or all(k is None for k in ks):
+                continue
+            n_cl += 1
+            k = min(x for x in ks if x is not None)
+            ub = max(U.operand(b, a, bb) for a in vs)
+            short = dn.replace("preflate_rs::", "")
+            rep.add(rule, "decoded-value-not-clamped:%s:%s" % (short.split("::")[-1], m.group(1).split("::")[-1]), ub != INF and ub <= k, b.where(bb),
+                    "%s(%s) with constant %d: the clamped value can be as large as %s" % (m.group(1), ", ".join(flow.describe(b, a)[:80] for a in ops), k, ub))
+    rep.add(rule, "decoded-values-used-as-read", True, "", "%d decode sites in %d reconstruction functions, %d constant clamps examined" % (n_dec, len(defs), n_cl))
+    rep.floor(rule, "decode-sites-on-reconstruction-path", n_dec, 15)
 
 
 def _m2_m3(F, rep):
